@@ -284,6 +284,50 @@ def equivalent_tzrange(spec):
     save = spec["dst"] - spec["std"]
     return tz.tzrange("AAA", spec["std"], "BBB", spec["dst"], delta(spec["sr"], spec["st"]), delta(spec["er"], spec["et"] - save))
 
+def tzrange_argument_forms(spec):
+    """the same zone through other legal spellings of tzrange's arguments: offsets as timedelta, the daylight offset left
+    to its default (std + 1 h) when it is that, the rule time spread over hours/minutes/seconds, weekday constants with
+    and without an explicit +1, keyword arguments"""
+    import datetime
+    from dateutil import tz, relativedelta as rd
+    SHORT = (rd.MO, rd.TU, rd.WE, rd.TH, rd.FR, rd.SA, rd.SU)
+    def delta(r, secs, style):
+        kw = {}
+        if r[0] == "M":
+            _, m, w, d = r
+            wd = (d - 1) % 7
+            if w == 5:
+                kw.update(month=m, day=31, weekday=SHORT[wd](-1))
+            elif w == 1 and style == 1:
+                kw.update(month=m, day=1, weekday=SHORT[wd])            # n=None means +1
+            else:
+                kw.update(month=m, day=1, weekday=SHORT[wd](+w))
+        elif r[0] == "J":
+            kw.update(nlyearday=r[1])
+        else:
+            kw.update(yearday=r[1] + 1)
+        if style == 0:
+            kw["seconds"] = secs
+        else:
+            sign = -1 if secs < 0 else 1
+            a = abs(secs)
+            kw.update(hours=sign * (a // 3600), minutes=sign * (a % 3600 // 60), seconds=sign * (a % 60))
+        return rd.relativedelta(**kw)
+    save = spec["dst"] - spec["std"]
+    td = datetime.timedelta
+    out = [("timedelta-offsets", tz.tzrange("AAA", td(seconds=spec["std"]), "BBB", td(seconds=spec["dst"]),
+                                            delta(spec["sr"], spec["st"], 0), delta(spec["er"], spec["et"] - save, 0))),
+           ("hms-deltas", tz.tzrange("AAA", spec["std"], "BBB", spec["dst"],
+                                     delta(spec["sr"], spec["st"], 1), delta(spec["er"], spec["et"] - save, 1))),
+           ("keywords", tz.tzrange(stdabbr="AAA", stdoffset=spec["std"], dstabbr="BBB", dstoffset=spec["dst"],
+                                   start=delta(spec["sr"], spec["st"], 1), end=delta(spec["er"], spec["et"] - save, 0)))]
+    if save == 3600:
+        out.append(("default-dstoffset", tz.tzrange("AAA", spec["std"], "BBB", start=delta(spec["sr"], spec["st"], 0),
+                                                    end=delta(spec["er"], spec["et"] - save, 0))))
+        out.append(("default-dstoffset-timedelta", tz.tzrange("AAA", td(seconds=spec["std"]), "BBB", None,
+                                                              delta(spec["sr"], spec["st"], 1), delta(spec["er"], spec["et"] - save, 1))))
+    return out
+
 def _rule_in_class(spec, which):
     save = spec["dst"] - spec["std"]
     if which == "start":
@@ -449,6 +493,24 @@ def oracle(ctx):
                 # equality compares the relativedeltas; the equivalent construction must compare equal
                 ctx.violation("tzstr(%r) != equivalent tzrange" % spec["s"], {"kind": "eq", "s": spec["s"]},
                               {"tzstr": [repr(zs._start_delta), repr(zs._end_delta)], "tzrange": [repr(zr._start_delta), repr(zr._end_delta)]})
+        # other legal spellings of the same tzrange arguments: equal zone, same answers
+        if k % 3 == 1:
+            with warnings.catch_warnings():
+                warnings.simplefilter("ignore")
+                try:
+                    forms = tzrange_argument_forms(spec)
+                except Exception as ex:
+                    ctx.violation("tzrange(...) raised %s for an equivalent spelling of its arguments" % type(ex).__name__,
+                                  {"kind": "tzrange-form", "s": spec["s"]}, repr(ex))
+                    forms = []
+            for label, zf in forms:
+                ctx.count("tzrange_form_" + label)
+                check_zone(ctx, "tzrange", zf, spec, instants, expect, "tzrange:" + label)
+                if not (zf == zr) or not (zr == zf):
+                    ctx.violation("tzrange spelled with %s != the tzrange built from integer seconds" % label,
+                                  {"kind": "eq-form", "s": spec["s"], "form": label},
+                                  {"form": [repr(zf._start_delta), repr(zf._end_delta), repr(zf._std_offset), repr(zf._dst_offset)],
+                                   "base": [repr(zr._start_delta), repr(zr._end_delta), repr(zr._std_offset), repr(zr._dst_offset)]})
         # tzlocal under TZ=<string> (glibc): only instants representable by time_t on this platform
         if k % 3 == 0:
             old = os.environ.get("TZ")
